@@ -717,6 +717,27 @@ def structure(ctx) -> None:
     shared.r_paramflow(ctx, list(prog.functions(fam)))
     no_call_memo(ctx)
     ne_pairing(ctx)
+    ctx.floor('R-REBUILD', shared.r_rebuild(ctx, [c for c in prog.classes.values() if c.module.name in FAMILY_MODULES]), 3)
+    class_exact_eq(ctx)
+
+
+def class_exact_eq(ctx) -> None:
+    """Equality of the value family is decided between objects of the *same* class: an ``__eq__`` that admits the other operand
+    by ``isinstance`` / ``issubclass`` (or compares nothing about the class) makes a kind equal to its sub-kind in one or both
+    directions - Date() == Timestamp() - and everything built on kind equality (operand checks of comparisons, set
+    operations, schema equality) accepts the mixed pair.  ``kind.py``: every ``__eq__`` names ``__class__`` on both sides."""
+    prog = ctx.prog
+    n = 0
+    for fn in prog.functions(['forml.io.dsl._struct.kind']):
+        if fn.name != '__eq__':
+            continue
+        n += 1
+        text = core.src(fn.node)
+        loose = [c for c in core.walk_local(fn.node) if isinstance(c, ast.Call) and isinstance(c.func, ast.Name) and c.func.id in ('isinstance', 'issubclass')]
+        delegates = any(isinstance(c, ast.Call) and isinstance(c.func, ast.Attribute) and c.func.attr == '__eq__' for c in core.walk_local(fn.node))
+        exact = ('other.__class__' in text and 'self.__class__' in text) or delegates
+        ctx.check(exact and not loose, 'C08.class-exact', fn, f'{fn.qual} compares the classes of both operands exactly (no isinstance/issubclass admission)', loose[0] if loose else fn.node, key=f'exact:{fn.qual}')
+    ctx.floor('C08.class-exact', n, 2)
 
 
 def no_call_memo(ctx) -> None:
